@@ -5,7 +5,8 @@
 From Coq Require Import List Arith Bool.
 Import ListNotations.
 From C17 Require Import Sem Progs Static Annot FutRaw.
-From C17 Require Exec ExecLive Ss FutCopy0 Per.
+From C17 Require Exec ExecLive Ss FutCopy0 Per Owner Sd.
+From Coq Require Import Permutation.
 
 (* Data-race freedom of the model: whenever a thread is about to execute an instruction that reads
    or writes a shared variable or the callback queue, it owns the mutex that protects it
@@ -219,3 +220,42 @@ Theorem c17_ss_poll_not_lost : forall lims rs k s, reach P (init_ss lims rs k) s
   exists i, i < length lims /\ stat (thr s (1 + i)) = Ready /\ ExecInv.inl (pc (thr s (1 + i))) [3;4] = true.
 Proof. exact Ss.ss_poll_not_lost. Qed.
 Print Assumptions c17_ss_poll_not_lost.
+
+(* ---- MutexLocker with an early Release() (scenario init_locker: thread 0 takes mutex 24 through a MutexLocker,
+   calls Release(), enters and leaves an inner scope on mutex 25 and leaves the outer scope; threads 1 and 2
+   contend for mutex 24): under every schedule nobody ever unlocks a mutex it does not own - in the model the
+   destructor of a released locker does nothing.  (Instance of c17_no_bad_unlock, stated for the scenario.) *)
+Theorem c17_locker_no_bad_unlock : forall s, reach P init_locker s -> fault s <> Some BadUnlock.
+Proof. intros s R. exact (c17_no_bad_unlock init_locker s init_lk R). Qed.
+Print Assumptions c17_locker_no_bad_unlock.
+
+(* ---- the preference-saver hand-off (scenario init_prefs): the preference map (variable PREF) is owner-only data.
+   1. every access to it happens with the owner's token (mutex OWN, held by thread 0 for its whole life) held -
+      this is c17_lockset with gv PREF = Some OWN;
+   2. the saver thread (thread 1) never reads or writes it, in any reachable state of any schedule: it works on
+      the copy carried by the closure. *)
+Theorem c17_prefs_owner_only : forall s, reach P init_prefs s ->
+  forall y, acc_var (fetch P (thr s 1)) = Some y -> y <> PREF.
+Proof. exact Owner.saver_never_touches_pref_map. Qed.
+Print Assumptions c17_prefs_owner_only.
+
+(* ---- the event loop's executor where a callback calls DrainCallbacks() itself (scenario init_ssd lims rs k = the
+   scenario init_ss in which callback (1,0) - the first callback of producer 1 - queues a callback and then calls
+   ss.DrainCallbacks() from inside the callback, the pattern ExecutorInterface.h recommends for destructors; the
+   nested drain runs in its own local vector; other callbacks may still call Execute; the loop blocks in poll),
+   any number of producers/callbacks/RunOnce calls, EVERY schedule:
+   1. no hazard; 2. no callback id is queued twice and NO CALLBACK IS RUN TWICE; 3. the callbacks run so far are a
+   sub-multiset of the queued ones (ran ++ rest is a permutation of subm: a nested drain legitimately runs newer
+   callbacks before the rest of the interrupted batch, so queue order is not claimed here); 4. callbacks run on the
+   loop thread only; 5. when the owner has finished, every thread has finished, the incoming queue is empty and the
+   callbacks run are exactly (a permutation of) the callbacks queued: each ran exactly once. *)
+Theorem c17_ss_nested_drain_exec_once : forall lims rs k s, reach P (init_ssd lims rs k) s ->
+  fault s = None /\
+  NoDup (subm s) /\
+  NoDup (map fst (ran s)) /\
+  (exists rest, Permutation (subm s) (map fst (ran s) ++ rest)) /\
+  (forall c t, In (c, t) (ran s) -> t = 0) /\
+  (stat (thr s 0) = Done -> que s INQ = [] /\ Permutation (map fst (ran s)) (subm s) /\
+                            forall t, t < nthr s -> stat (thr s t) = Done).
+Proof. exact Sd.sd_exec_once. Qed.
+Print Assumptions c17_ss_nested_drain_exec_once.
